@@ -148,8 +148,9 @@ def run(chk):
              "the resource index has a single pair of writers", classes=("UrlDispatcher",))
     ix = repo.func(MOD, "UrlDispatcher.index_resource")
     ux = repo.func(MOD, "UrlDispatcher.unindex_resource")
-    if K.exprs(ix, "self._resource_index.setdefault(resource_key, []).append(resource)") and K.exprs(ux, "self._resource_index[resource_key].remove(resource)") \
-            and all(norm.raw(norm.fn_defs(f.node).defs["resource_key"][0][1]) == "self._get_resource_index_key(resource)" for f in (ix, ux)):
+    ia = K.exprs(ix, "self._resource_index.setdefault($K, []).append(resource)")
+    ua = K.exprs(ux, "self._resource_index[$K].remove(resource)")
+    if ia and ua and all(norm.text(b_["K"], c_) == "self._get_resource_index_key(resource)" for c_, b_ in (ia[0], ua[0])):
         chk.ok("C14.index", ix, "index and unindex derive the key with the same function; entries are appended (registration order kept)")
     else:
         chk.violation("C14.index", ix, "index_resource / unindex_resource", "same key derivation, append / remove", "index and unindex disagree on the key or the order")
